@@ -1520,7 +1520,7 @@ class ParserElement(ABC):
             other = self._literalStringClass(other)
         if not isinstance(other, ParserElement):
             return NotImplemented
-        return self + And._ErrorStop() + other
+        return And([self, And._ErrorStop(), other])
 
     def __rsub__(self, other) -> ParserElement:
         """
